@@ -1,5 +1,6 @@
 (* Extraction of the C12 model: per-rank programs (co-simulation) and the global model (output prediction). *)
 From Coq Require Import Extraction ExtrOcamlBasic ZArith.
-From ScV Require Import Base.CInt MPI.Prog Gen.ErrClassC12 C12.FileModel.
+From ScV Require Import Base.CInt MPI.Prog Gen.ErrClassC12 Gen.OpenC12 C12.FileModel C12.MpiioModel.
 Extraction "c12_model.ml" scen_prog_A scen_prog_C g_scen gstate0 h_none content class_index errclass
-  w_node w_fail w_open w_ledger g_w g_ctx g_s0.
+  w_node w_fail w_open w_ledger g_w g_ctx g_s0
+  scen_prog_B gB_scen gstB0 hB_none errclassB b_w.
